@@ -107,6 +107,15 @@ EXTRA6 = {
  'C17': '; the websocket length field carries a length only below 126; every argument of an inverse trigonometric function that feeds a distance is bounded',
  'C18': '; no write of the live log file is reachable from a running script',
 }
+EXTRA7 = {
+ 'C05': '; the queue index is encoded with a fixed width (string order of the queue keys = delivery order); a registered hook owns the argument vector of the command that defined it',
+ 'C06': '; a registered hook owns the argument vector of the command that defined it (the replication loop may reuse its buffer)',
+ 'C10': '; the queue index is encoded with a fixed width; every webhook HTTP client bounds the whole exchange with a positive Timeout',
+ 'C14': '; no function outside New/Set/Delete and their helpers writes the collection\'s bookkeeping (an expiry path with bookkeeping of its own leaves index entries behind)',
+ 'C03': '; a registered hook owns the argument vector of the command that defined it',
+}
+for _pid, _d in EXTRA7.items():
+    EXTRA6[_pid] = EXTRA6.get(_pid, '') + _d
 for _pid, _d in EXTRA5.items():
     _t0, _d0, _n0 = EXTRA.get(_pid, ('', '', None))
     EXTRA[_pid] = (_t0, _d0 + _d, _n0)
